@@ -366,8 +366,14 @@ class Enc:
         return acc
 
     def dnode(self, i, wrt):
-        """d node_i / d var `wrt` (wrt is a z3-level variable name: harness var name, cut name or inv_<name>)."""
-        return self.dval(self.node(i), wrt)
+        """d node_i / d (harness variable or cut name `wrt`); handles the x = 1/h parametrisation."""
+        return self.dwrt(self.node(i), wrt)
+
+    def dwrt(self, v, wrt):
+        if wrt in self.inv_vars:
+            x = self.vvar('inv_' + wrt)
+            return self.neg(self.mul(self.mul(x, x), self.dval(v, 'inv_' + wrt)))
+        return self.dval(v, wrt)
 
 
 # ---------------------------------------------------------------------- solving
